@@ -295,6 +295,10 @@ func run(rt reflect.Type, call func(target any) error) (res Res) {
 		}
 		return Res{Verdict: "error", Err: e}
 	}
+	if c17t.C17Shared(target.Elem()) {
+		// accepted, but two positions of the decoded value share one cell
+		return Res{Verdict: "shared", Val: c17t.C17Dump(target.Elem())}
+	}
 	return Res{Verdict: "ok", Val: c17t.C17Dump(target.Elem())}
 }
 
@@ -333,7 +337,7 @@ func loadByExt(rt reflect.Type, dir string, texts map[string]string) (map[string
 		}
 		r := run(rt, func(t any) error { return conf.Load(p, t) })
 		res[ef[0]] = r
-		if r.Verdict == "ok" { // MustLoad exits the process on error
+		if r.Verdict == "ok" || r.Verdict == "shared" { // MustLoad exits the process on error
 			must[ef[0]] = run(rt, func(t any) error { conf.MustLoad(p, t); return nil })
 		}
 	}
@@ -471,7 +475,7 @@ func runCase(c Case, dir string) (out Out) {
 			out.EnvMust = map[string]Res{}
 			for _, f := range formats {
 				r := out.EnvOn[f]
-				if r.Verdict == "ok" {
+				if r.Verdict == "ok" || r.Verdict == "shared" {
 					p := filepath.Join(dir, "c."+f)
 					if f == "yaml" {
 						r = run(rt, func(t any) error { return conf.LoadConfig(p, t, conf.UseEnv()) })
